@@ -176,6 +176,60 @@ theorem C03_parentheses_around_any_expression (As : List Token) (eA eB l r : Tok
   rw [parseTokens_congr hsd] at hA ⊢
   exact parseTokens_of_R (paren_of_parse heA heB hl hr (parse_consumes_all heA hnA hA)) ⟨eB, [], rfl, heB⟩ htoks
 
+/-- `n` opening parentheses, the expression, `n` closing parentheses. -/
+def parenN (n : Nat) (l r : Token) (As : List Token) : List Token := List.replicate n l ++ As ++ List.replicate n r
+
+theorem parenN_succ (n : Nat) (l r : Token) (As : List Token) :
+    parenN (n + 1) l r As = l :: (parenN n l r As ++ [r]) := by
+  unfold parenN
+  rw [List.replicate_succ, List.replicate_succ']
+  simp [List.append_assoc]
+
+/-- **No depth limit**: parentheses nested to ANY depth `n` around an expression that compiles to `a`
+    compile to `a` as well — the grammar has no nesting bound and neither has the parser (the model's fuel
+    always suffices).  An implementation limit on nesting depth contradicts this theorem at its boundary. -/
+theorem C03_parentheses_to_any_depth (n : Nat) (As : List Token) (l r : Token) (a : Node N) (total : Nat)
+    (hl : l.ty = .lparen) (hr : r.ty = .rparen) (hlp : l.pos ≤ total) (hrp : r.pos ≤ total)
+    (hnA : ∀ t ∈ As, t.ty ≠ .eof) (hpA : ∀ t ∈ As, t.pos ≤ total)
+    (hA : parseTokens Generated.table (As ++ [⟨.eof, [], total⟩]) = .ok a) :
+    parseTokens Generated.table (parenN n l r As ++ [⟨.eof, [], total⟩]) = .ok a := by
+  induction n with
+  | zero => simpa [parenN] using hA
+  | succ n ih =>
+    have hne : ∀ t ∈ parenN n l r As, t.ty ≠ .eof := by
+      intro t ht
+      simp only [parenN, List.mem_append, List.mem_replicate] at ht
+      rcases ht with (⟨_, rfl⟩ | h) | ⟨_, rfl⟩
+      · rw [hl]; decide
+      · exact hnA t h
+      · rw [hr]; decide
+    have hpos : ∀ t ∈ parenN n l r As, t.pos ≤ total := by
+      intro t ht
+      simp only [parenN, List.mem_append, List.mem_replicate] at ht
+      rcases ht with (⟨_, rfl⟩ | h) | ⟨_, rfl⟩
+      · exact hlp
+      · exact hpA t h
+      · exact hrp
+    have htoks : Lexer.TokensOK total (l :: (parenN n l r As ++ [r, ⟨.eof, [], total⟩])) := by
+      refine ⟨⟨l :: (parenN n l r As ++ [r]), by simp, ?_⟩, ?_⟩
+      · intro t ht
+        simp only [List.mem_cons, List.mem_append, List.mem_singleton, List.not_mem_nil, or_false] at ht
+        rcases ht with rfl | h | rfl
+        · rw [hl]; decide
+        · exact hne t h
+        · rw [hr]; decide
+      · intro t ht
+        simp only [List.mem_cons, List.mem_append, List.mem_singleton, List.not_mem_nil, or_false] at ht
+        rcases ht with rfl | h | rfl | rfl
+        · exact hlp
+        · exact hpos t h
+        · exact hrp
+        · exact Nat.le_refl _
+    have := C03_parentheses_around_any_expression (parenN n l r As) ⟨.eof, [], total⟩ ⟨.eof, [], total⟩ l r a total
+      rfl rfl hl hr hne ih htoks
+    rw [parenN_succ]
+    simpa [List.append_assoc] using this
+
 /-- **An expression is read the same way wherever an expression is expected up to a closing token**:
     if `A` compiles to `a`, then at level 0 in any surroundings — after any consumed tokens, in front of
     `)`, `]`, `}`, `,` or the end of input: inside parentheses, as a member of a multi-select list or
